@@ -487,6 +487,28 @@ def read_fragment(rng):
     return [(5, 1, 0, ('?', 2, None)), (5, 1, 3, None)]
 
 
+def tmpl_big_handover(rng):
+    """Large / round numbers (10^k, 2^k, 1000^k, with and without a small addend, negated, inverted) are left on
+    the stacks by the input-free prefix, input is read, and then the numbers are printed as decimal text and
+    compared: at level 2 they cross the hand-over as text."""
+    prog = []
+    for _ in range(rng.randint(1, 3)):
+        base, e = rng.choice([(10, rng.randint(9, 32)), (10, rng.choice([10, 11, 20, 21, 30])), (2, rng.choice([32, 40, 64, 96, 128])),
+                              (1000, rng.randint(3, 10)), (6, 20), (7, 25)])
+        prog += [(0, 1, base, None)] * e + [(2, e, 3, None)]
+        r = rng.random()
+        if r < 0.25:
+            prog += [(0, 1, rng.randint(1, 9), None), (1, 2, 3, None)]
+        elif r < 0.45:
+            prog += [(4, 1, rng.choice([4, 5]), None)]          # 1/big stays on stack 3, product copy goes elsewhere
+        elif r < 0.6:
+            prog += [(3, 1, rng.choice([4, 5]), None)]          # negated
+    prog += read_fragment(rng)
+    for _ in range(rng.randint(1, 4)):
+        prog.append(rng.choice([(3, 1, 1, None), (3, 1, 2, None), (3, 1, 1, None), (5, 1, 3, ('?', None, 2))]))
+    return prog
+
+
 def tmpl_handover_exit(rng):
     """prefix ; read ; print ; program-requested exit (directly, in a multi-operand command, inside an area) ; commands
     that must never run.  Also end of input reached in the middle (the read finds nothing)."""
@@ -509,6 +531,19 @@ def state_fragment(rng):
     """Leaves something awkward on the stacks for the hand-over: NaN on a non-empty stack, a fraction, a
     negative value, a value on stack 0."""
     k = rng.random()
+    if k < 0.2:
+        # large and ROUND numbers (many decimal digits, trailing zeros, powers of two, zero limbs), as integer,
+        # negated, or as the denominator of a fraction: they travel through text into level-2 compiled programs
+        base, e = rng.choice([(10, rng.randint(9, 30)), (2, rng.choice([32, 40, 64, 96])), (1000, rng.randint(3, 9)), (6, 20)])
+        frag = [(0, 1, base, None)] * e + [(2, e, 3, None)]
+        r = rng.random()
+        if r < 0.3:
+            frag += [(0, 1, rng.randint(1, 9), None), (1, 2, 3, None)]          # + small
+        elif r < 0.5:
+            frag += [(3, 1, rng.choice([3, 4]), None)]                          # negated
+        elif r < 0.75:
+            frag += [(4, 1, rng.choice([3, 4]), None)]                          # 1 / big
+        return frag
     if k < 0.35:
         return [(0, 1, rng.randint(1, 9), None), (0, 1, 0, None), (4, 1, rng.choice([3, 4, 5]), None)]       # 1/0 -> NaN kept
     if k < 0.5:
@@ -762,6 +797,7 @@ INPUT_TEMPLATES = {
     'stack0': lambda rng, ai: tmpl_stack0(rng),
     'handover': lambda rng, ai: tmpl_handover(rng),
     'handover_exit': lambda rng, ai: tmpl_handover_exit(rng),
+    'big_handover': lambda rng, ai: tmpl_big_handover(rng),
     'pending_return': lambda rng, ai: tmpl_pending_return(rng),
     'label_table': lambda rng, ai: tmpl_label_table(rng),
     'stack0_data': lambda rng, ai: tmpl_stack0_data(rng),
